@@ -7,7 +7,7 @@ TARGETS = ['MindsVerif.Props.C11']
 THEOREMS = ['MindsVerif.Props.C11.' + n for n in (
     'C11_main', 'C11_partial_decision', 'C11_witness_2', 'C11_decision_cte', 'C11_decision_before_0e75382',
     'C11_decision_sound', 'C11_names', 'C11_resolution', 'C11_resolution_names', 'C11_resolution_exact',
-    'C11_exactness_needs_hypothesis', 'C11_regression_1', 'C11_regression_2', 'C11_regression_3')]
+    'C11_exactness_needs_hypothesis', 'C11_regression_1', 'C11_regression_2', 'C11_regression_3', 'C11_regression_4')]
 ASSUME = [
     'get_query_info, check_single_integration, prepare_integration_select and the walker are hand-modelled '
     '(Model/Route.lean); tie = the plan stream of this run (decision + identifiers of the pushed query vs the real planner)',
@@ -167,10 +167,13 @@ VOC_Q = ['t', 's', 'u', 'a', 'b', 'int1', 'INT1', 'T', 'zz']
 VOC_C = ['id', 'x', 'y', 'z', 'w', 'ID', 'q']
 
 
+SEM_TABLES = sorted(t for t in TABLES if t != DB)      # the table called like the integration has its own stream
+
+
 def gen_sel(rng, depth=0):
     tabs = []
     for _ in range(rng.choice([1, 2, 2, 3])):
-        t = rng.choice(sorted(TABLES))
+        t = rng.choice(SEM_TABLES)
         parts = [t] if rng.random() < 0.3 else [rng.choice(['int1', 'INT1', 'Int1']), t]
         alias = None
         if rng.random() < 0.5:
@@ -190,7 +193,7 @@ def gen_sel(rng, depth=0):
     ctes = []
     if depth == 0 and rng.random() < 0.4:
         # one CTE `c0` = SELECT * FROM <one table>; its body is a scope of its own with its own references
-        t = rng.choice(sorted(TABLES))
+        t = rng.choice(SEM_TABLES)
         bparts = [t] if rng.random() < 0.3 else [rng.choice(['int1', 'INT1']), t]
         balias = rng.choice([None, None, 'a', 'int1', 't'])
         bq = balias or t
@@ -213,18 +216,48 @@ def gen_sel(rng, depth=0):
             keep = [tabs, cols, subs, ctes]
             drop(keep)
             cols = keep[1]
+    if depth == 0 and rng.random() < 0.35:
+        # a derived table `(SELECT * FROM <table>) AS d`: for name resolution it is a CTE body plus a bare reference `d`;
+        # its alias is a local name like any table alias, also when it spells the integration
+        t = rng.choice(SEM_TABLES)
+        bparts = [t] if rng.random() < 0.3 else [rng.choice(['int1', 'INT1']), t]
+        d = rng.choice(['d', 'd', 'int1', 'INT1', 'dd'])       # not a real table's name: the schema is keyed by name
+        tabs[rng.randrange(len(tabs))] = ([d], None, (bparts, rng.choice([None, 'a', 'int1'])))
+        cols.append([d, rng.choice(TABLES[t])])
+        cols.append([rng.choice(TABLES[t])])
+        e = d.lower()
+
+        def drop2(sel):
+            sel[1] = [c for c in sel[1] if not (len(c) == 3 and c[1].lower() == e)] or [['id']]
+            for x in sel[2]:
+                drop2(x)
+        keep = [tabs, cols, subs, ctes]
+        drop2(keep)
+        cols = keep[1]
     return [tabs, cols, subs, ctes]
 
 
-def cte_table(sel):
-    """underlying table of the CTE c0 (its columns are that table's columns)"""
-    return sel[3][0][0][0][0][-1] if sel[3] else None
+def tab3(t):
+    return t if len(t) == 3 else (t[0], t[1], None)
+
+
+def under_map(sel):
+    """names whose rows are rows of an underlying table: the CTE c0 and the derived tables of the top level"""
+    m = {}
+    if sel[3]:
+        m['c0'] = tab3(sel[3][0][0][0])[0][-1]
+    for t in sel[0]:
+        p, a, body = tab3(t)
+        if body is not None:
+            m[p[0].lower()] = body[0][-1]
+    return m
 
 
 def sel_json(sel):
     tabs, cols, subs, ctes = sel
-    return [[[[R.enc(p) for p in parts], R.enc_opt(a)] for parts, a in tabs], [[R.enc(p) for p in c] for c in cols],
-            [sel_json(s) for s in subs], [sel_json(s) for s in ctes]]
+    bodies = [[[body], [], [], []] for _, _, body in map(tab3, tabs) if body is not None]
+    return [[[[R.enc(p) for p in parts], R.enc_opt(a)] for parts, a, _ in map(tab3, tabs)], [[R.enc(p) for p in c] for c in cols],
+            [sel_json(s) for s in subs], [sel_json(s) for s in ctes + bodies]]
 
 
 def cut(parts, names=(), is_tab=True):
@@ -236,14 +269,22 @@ def cut(parts, names=(), is_tab=True):
 def sel_aliases(sel):
     """the `names` of the live cut: alias or, without one, own name of every table reference (CTE bodies included)"""
     tabs, cols, subs, ctes = sel
-    out = {(a or p[-1]).lower() for p, a in tabs}
+    out = {(a or p[-1]).lower() for p, a, _ in map(tab3, tabs)}
+    for _, _, body in map(tab3, tabs):
+        if body is not None:
+            out.add((body[1] or body[0][-1]).lower())
     for s in subs + ctes:
         out |= sel_aliases(s)
     return out
 
 
 def from_clause(tabs, strip):
-    return ', '.join('.'.join(cut(p) if strip else p) + (' AS %s' % a if a else '') for p, a in tabs)
+    def one(t):
+        p, a, body = tab3(t)
+        if body is not None:
+            return '(SELECT * FROM %s) AS %s' % (from_clause([body], strip), p[0])
+        return '.'.join(cut(p) if strip else p) + (' AS %s' % a if a else '')
+    return ', '.join(one(t) for t in tabs)
 
 
 def sqlite_resolutions(conn, sel, strip, outer=(), names=(), prefix=''):
@@ -253,18 +294,28 @@ def sqlite_resolutions(conn, sel, strip, outer=(), names=(), prefix=''):
     for body in ctes:
         out += sqlite_resolutions(conn, body, strip, (), names)
         prefix = 'WITH c0 AS (SELECT * FROM %s) ' % from_clause(body[0], strip)
+    # (derived tables have bodies without column references of their own: nothing to list for them)
     for c in cols:
         r = '.'.join(cut(c, names, False) if strip else c)
-        q = 'SELECT %s FROM %s LIMIT 1' % (r, from_clause(tabs, strip))
-        for otabs in outer:
-            q = 'SELECT (%s) FROM %s LIMIT 1' % (q, from_clause(otabs, strip))
-        q = prefix + q
-        try:
-            row = conn.execute(q).fetchone()
-            out.append(['ok'] + str(row[0]).split('.'))
-        except sqlite3.Error as e:
-            m = str(e)
-            out.append(['ambiguous'] if 'ambiguous' in m else (['notFound'] if 'no such column' in m else ['error', m]))
+        def run(expr):
+            q = 'SELECT %s FROM %s LIMIT 1' % (expr, from_clause(tabs, strip))
+            for otabs in outer:
+                q = 'SELECT (%s) FROM %s LIMIT 1' % (q, from_clause(otabs, strip))
+            try:
+                row = conn.execute(prefix + q).fetchone()
+                return ['ok'] + str(row[0]).split('.')
+            except sqlite3.Error as e:
+                m = str(e)
+                return ['ambiguous'] if 'ambiguous' in m else (['notFound'] if 'no such column' in m else ['error', m])
+        res = run(r)
+        # the same reference inside a window: PARTITION BY only / ORDER BY only / both — must resolve the same way
+        k = (len(r) + len(cols) + len(tabs)) % 3
+        over = ['PARTITION BY %s' % r, 'ORDER BY %s DESC' % r, 'PARTITION BY %s ORDER BY %s' % (r, r)][k]
+        wres = run('count(*) OVER (%s)' % over)
+        if wres[0] != res[0]:
+            res = ['window-mismatch', over, res, wres]
+        out.append(res)
+        continue
     for s in subs:
         out += sqlite_resolutions(conn, s, strip, (tabs,) + tuple(outer), names, prefix)
     return out
@@ -396,8 +447,12 @@ def run(chk):
     sels = [gen_sel(rng) for _ in range(n_sem)]
     for s in sels:
         schema = dict(TABLES)
-        if cte_table(s):
-            schema['c0'] = TABLES[cte_table(s)]
+        for t3 in s[0]:
+            p3, _, body3 = tab3(t3)
+            if body3 is not None:
+                schema[p3[0]] = TABLES[body3[0][-1]]          # the derived table, under its name as written
+        if s[3]:
+            schema['c0'] = TABLES[under_map(s)['c0']]
         lines.append(json.dumps(dict(op='sem', db=R.enc(DB), sch=[[R.enc(t), [R.enc(c) for c in cols]] for t, cols in sorted(schema.items())],
                                      sel=sel_json(s))))
         metas.append(('sem', None, s))
@@ -430,12 +485,13 @@ def run(chk):
                 want_fed = sqlite_resolutions(mfed, sel, False)
                 want_loc = sqlite_resolutions(mloc, sel, True)
                 # the rows of the CTE c0 are rows of its underlying table: compare tables through that map
-                under = lambda rs: [[r[0], cte_table(sel)] + r[2:] if len(r) > 2 and r[1] == 'c0' else r for r in rs]
+                um = under_map(sel)
+                under = lambda rs: [[r[0], um[r[1].lower()]] + r[2:] if len(r) > 2 and r[1].lower() in um else r for r in rs]
                 got_fed, got_loc = under(model_res(o['fed'])), under(model_res(o['local']))
                 low = lambda rs: [[str(x).lower() for x in r] for r in rs]
                 if {R.dec(n) for n in o['names']} != set(sel_aliases(sel)):
                     why = dict(sel=sel, field='names handed to the cut', harness=sorted(sel_aliases(sel)), model=sorted(R.dec(n) for n in o['names']))
-                bump('sem/cte=%s' % bool(sel[3]))
+                bump('sem/cte=%s,derived=%s' % (bool(sel[3]), any(tab3(t)[2] is not None for t in sel[0])))
                 if low(want_fed) != low(got_fed):
                     why = dict(sel=sel, field='federated resolution', sqlite=want_fed, model=got_fed)
                 elif low(want_loc) != low(got_loc):
